@@ -198,6 +198,24 @@ def step (st : St) (line : String) : IO St := do
       IO.println s!"ORACLE C13 a re-used solver object differs from a fresh one: history {(kv rest "hist").getD ""} {line.trimAscii}"
       st := { st with oracleFails := st.oracleFails + 1 }
     return st
+  | "ORD" :: rest =>
+    -- C02 oracle on the implementation: error ratios between successive uniform refinements
+    let e2 := (((kv rest "e2").getD "").splitOn ",").map hexF
+    let ei := (((kv rest "einf").getD "").splitOn ",").map hexF
+    let ex := (kv rest "extrap") == some "1"
+    let ord (e : List Float) : Float := Float.log2 ((e.getD 1 1.0) / (e.getD 2 1.0))
+    let o2 := ord e2; let oi := ord ei
+    let cfg := s!"geometry={(kv rest "geometry").getD ""} problem={(kv rest "problem").getD ""} alpha={(kv rest "alpha").getD ""} beta={(kv rest "beta").getD ""} dirbc={(kv rest "dirbc").getD ""} strat={(kv rest "strat").getD ""} extrap={ex} base_exp={(kv rest "base_exp").getD ""}"
+    IO.println s!"SIG order {cfg}"
+    let ok := if ex then o2 ≥ 2.8 ∧ oi ≥ 2.2 else o2 ≥ 1.7 ∧ oi ≥ 1.6
+    let stats ← check st.stats true fun _ => ""
+    let mut st := { st with stats := { stats with cases := stats.cases + 1 } }
+    if !ok then
+      let f9 := (kv rest "geometry") == some "2" ∧ (kv rest "alpha") == some "0"
+      if f9 then IO.println s!"ORACLE C02 F9 the error does not decrease under refinement for a Poisson-coefficient problem on the Czarny geometry (wrong shipped source term): orders {o2} / {oi} {cfg}"
+      else IO.println s!"ORACLE C02 observed order {o2} (weighted Euclidean) / {oi} (maximum norm) on the last refinement pair is below the expected order: {cfg} e2={e2} einf={ei}"
+      st := { st with oracleFails := st.oracleFails + 1 }
+    return st
   | "SKIP" :: _ => return st
   | "Switching" :: _ => return st      -- unconditional std::cout message of solve()
   | [] => return st
